@@ -202,7 +202,7 @@ def fit_batch(in_path, out_path, workdir):
                 xs = np.array([0.5, 1.0, 1.5, 2.0, 2.5, 3.0])
                 ytrue = xs * xs
             sg = np.full(len(xs), c["sigma"])
-            ys = ytrue + c["sigma"] * rng.standard_normal(len(xs))
+            ys = ytrue + c.get("noise", 1.0) * c["sigma"] * rng.standard_normal(len(xs))
             np.savetxt(os.path.join(dd, "d.txt"), np.transpose([xs, ys, sg]))
             xs, ys, sg = np.loadtxt(os.path.join(dd, "d.txt"), unpack=True)       # what the code will read
             like = make_like("gauss", "d.txt", "r", dd, "core_maths")
